@@ -192,13 +192,39 @@ def ref_downscale(a, f3, method):
                     for x in range(nx):
                         blk = a[c, z * fz:(z + 1) * fz, y * fy:(y + 1) * fy, x * fx:(x + 1) * fx].ravel().tolist()
                         best = None
-                        for v in sorted(set(blk)):
-                            n = blk.count(v)
+                        finite = [v for v in blk if v == v]
+                        for v in sorted(set(finite)):
+                            n = finite.count(v)
                             if best is None or n > best[1]:
                                 best = (v, n)
+                        # all NaN voxels count as ONE value, ordered after every number (what np.unique
+                        # does since NumPy 1.21): NaN wins only with strictly more votes
+                        n_nan = len(blk) - len(finite)
+                        if n_nan and (best is None or n_nan > best[1]):
+                            best = (float("nan"), n_nan)
                         out[c, z, y, x] = best[0]
         return out
     raise ValueError(method)
+
+
+def same_values_bitwise(a, b):
+    """NaN-aware exact comparison of two arrays of one dtype: same shape, NaN at the same places
+    (any payload), every other element bit-identical (so -0.0 != 0.0, inf != FLT_MAX)."""
+    a = np.ascontiguousarray(a)
+    b = np.ascontiguousarray(b)
+    if a.shape != b.shape or a.dtype != b.dtype:
+        return False
+    if a.dtype.kind != "f":
+        return a.tobytes() == b.tobytes()
+    na, nb = np.isnan(a), np.isnan(b)
+    if not np.array_equal(na, nb):
+        return False
+    ui = {2: np.uint16, 4: np.uint32, 8: np.uint64}[a.dtype.itemsize]
+    return bool(np.array_equal(a.view(ui)[~na], b.view(ui)[~nb]))
+
+
+SPECIAL_F32 = [float("inf"), float("-inf"), float("nan"), -0.0, 0.0, 1e-45, -1e-45, 1.1754942e-38,
+               3.4028235e38, -3.4028235e38, 16777217.0, 0.5, 1.5, 2.5]
 
 
 # ------------------------------------------------------------------ in-memory reader / writer
